@@ -7,6 +7,11 @@ from .props import PROPS, NOT_APPLICABLE
 VERIF = os.path.dirname(os.path.dirname(os.path.abspath(__file__)))
 
 
+def rules_for(pid):
+    from . import core, rules  # noqa: F401  (registers the rule table)
+    return sorted(rd.id for rd in core.RULES if pid in rd.props)
+
+
 def main():
     checks = []
     for pid in sorted(PROPS):
@@ -21,7 +26,8 @@ def main():
             'level_claimed': {
                 'category': 'other',
                 'text': 'Static structural check of necessary conditions (clause level), decided over all MIR paths: '
-                        + p['decides'] + '. Not decided: ' + p['not_decided'] + '.',
+                        + p['decides'] + '. Rules serving this property (rule table, each with a stated necessity argument): '
+                        + ', '.join(rules_for(pid)) + '. Not decided: ' + p['not_decided'] + '.',
                 'design_ref': p.get('design_ref', 'DESIGN.md §4 ' + pid),
             },
             'level_note': 'Trusted base: rustc nightly MIR (mir-opt-level=0) of the crate as built by cargo, the driver in '
